@@ -120,6 +120,12 @@ def histories(draw, max_steps=12):
     for t in init:
         if t["entries"] and t["entries"][0][0] > 0 and draw(st.booleans()):
             t["minT"] = t["entries"][0][0]  # a tier whose span starts at its first entry, not at 0
+    for t in init:
+        if t["type"] == "interval" and style != "grid" and draw(st.integers(0, 5)) == 0:
+            # a labelled interval of a few nanoseconds at the end: short, and as well-formed as any other
+            b0 = max([e[1] for e in t["entries"]] + [t["minT"]]) + draw(st.sampled_from([0.0, 0.5]))
+            t["entries"] = t["entries"] + [[b0, b0 + 4e-9, "a"]]
+            t["maxT"] = max(t["maxT"], b0 + 4e-9)
     n = draw(st.integers(1, max_steps))
     return {"style": style, "init": init, "ops": [draw(op_strategy(style)) for _ in range(n)]}
 
